@@ -455,6 +455,40 @@ def equiv_ints(known, part):
                                   {"equivalence": eq, "from": fu, "to": tu, "dtype": dt, "values": v, "got": got.tolist(), "float64_input_gives": np.asarray(ref).tolist()})
 
 
+def width_kept(known, part):
+    """mixed-unit binary ufuncs on float16/float32 (and int16/int32) data keep their width whatever Python type the unit table
+    stores the scale in (the Planck units and units added with a NumPy scalar carry np.float64 scales)"""
+    import unyt.dimensions as D
+    from unyt import unyt_array
+    from unyt.unit_registry import UnitRegistry
+
+    reg = UnitRegistry()
+    reg.add("vf_npscale", np.float64(1000.0), D.length)
+    reg.add("vf_pyscale", 1000.0, D.length)
+    pairs = [("m_pl", "kg", None), ("l_pl", "m", None), ("t_pl", "s", None), ("E_pl", "J", None), ("T_pl", "K", None), ("vf_npscale", "m", reg), ("vf_pyscale", "m", reg),
+             ("m", "vf_npscale", reg), ("kg", "m_pl", None)]
+    for ua, ub, rg in pairs:
+        for dt in ("float32", "float16", "float64"):  # integer operands may legitimately come back wider (int32 + rescaled float32 -> float64)
+            for opn, op in (("+", lambda x, y: x + y), ("-", lambda x, y: x - y), ("np.maximum", np.maximum), ("np.add", np.add), ("<", lambda x, y: x < y)):
+                a = unyt_array(np.array([1, 2], dtype=dt), ua, registry=rg)
+                b = unyt_array(np.array([3, 4], dtype=dt), ub, registry=rg)
+                part.ev()
+                try:
+                    with warnings.catch_warnings():
+                        warnings.simplefilter("ignore")
+                        r = op(a, b)
+                except Exception as e:
+                    part.count(f"width grid: refused ({type(e).__name__})")
+                    continue
+                if opn == "<":
+                    continue
+                part.nt(("width", ua, ub, dt, opn))
+                want = np.dtype("f" + str(np.dtype(dt).itemsize)) if np.dtype(dt).kind in "iu" else np.dtype(dt)
+                if np.asarray(r).dtype != want:
+                    core.classify(known, part, f"C17:width-changed:mixed-unit-{opn}:{np.dtype(dt).kind}{np.dtype(dt).itemsize}",
+                                  {"a": ua, "b": ub, "dtype": dt, "result_dtype": str(np.asarray(r).dtype), "scale_type": type((rg or a.units.registry).lut[ua.split("*")[0]][0]).__name__ if ua in (rg or a.units.registry).lut else "?"})
+
+
 def part_grid(payload):
     """deterministic dtype x pair x route grid with edge values"""
     known = core.Known("C17")
@@ -463,6 +497,7 @@ def part_grid(payload):
         temp_mixed(known, part)
     if payload.get("equiv_ints"):
         equiv_ints(known, part)
+        width_kept(known, part)
     for dt in payload["dtypes"]:
         if dt in INT_DT:
             info = np.iinfo(dt)
